@@ -31,15 +31,74 @@ def isc(x):
 _RV = {}
 
 
+class Lin:
+    """canonical linear form  c + sum coeff_i * var_i  (vars sorted by name): sums of the same inputs
+    built in different orders become the *same* z3 AST, so most VCs of linear measures are syntactic."""
+    __slots__ = ("t", "c", "_z")
+    VARS = {}   # name -> z3 Real term
+
+    def __init__(self, t, c):
+        self.t = t      # tuple of (name, Fraction) sorted by name, no zero coefficients
+        self.c = c      # Fraction
+        self._z = None
+
+    @staticmethod
+    def var(name, zterm):
+        Lin.VARS[name] = zterm
+        return Lin(((name, Fraction(1)),), Fraction(0))
+
+    @staticmethod
+    def make(d, c):
+        t = tuple(sorted((k, v) for k, v in d.items() if v != 0))
+        if not t:
+            return Fraction(c)
+        return Lin(t, Fraction(c))
+
+    def z(self):
+        if self._z is None:
+            acc = None
+            for name, co in self.t:
+                v = Lin.VARS[name]
+                term = v if co == 1 else (fz.neg(v) if co == -1 else fz.mul(_rv(co), v))
+                acc = term if acc is None else fz.add(acc, term)
+            if self.c != 0:
+                acc = fz.add(acc, _rv(self.c))
+            self._z = acc
+        return self._z
+
+    def __repr__(self):
+        return "Lin(%s)" % self.z()
+
+
+def _rv(k):
+    k = Fraction(k)
+    r = _RV.get(k)
+    if r is None:
+        r = _RV[k] = z3.RealVal(str(k))
+    return r
+
+
 def zr(x):
     """z3 Real term for a polynomial part."""
     if isc(x):
-        k = Fraction(x)
-        r = _RV.get(k)
-        if r is None:
-            r = _RV[k] = z3.RealVal(str(k))
-        return r
+        return _rv(x)
+    if isinstance(x, Lin):
+        return x.z()
     return x
+
+
+def _lin_add(a, b, sb=1):
+    d = dict(a.t)
+    for k, v in b.t:
+        d[k] = d.get(k, 0) + sb * v
+    return Lin.make(d, a.c + sb * b.c)
+
+
+def _lin_scale(a, k):
+    k = Fraction(k)
+    if k == 0:
+        return Fraction(0)
+    return Lin(tuple((n, v * k) for n, v in a.t), a.c * k)
 
 
 def padd(a, b):
@@ -49,20 +108,31 @@ def padd(a, b):
         return b
     if isc(b) and b == 0:
         return a
+    la, lb = isinstance(a, Lin), isinstance(b, Lin)
+    if la and lb:
+        return _lin_add(a, b)
+    if la and isc(b):
+        return Lin(a.t, a.c + Fraction(b))
+    if lb and isc(a):
+        return Lin(b.t, b.c + Fraction(a))
     return fz.add(zr(a), zr(b))
 
 
 def pneg(a):
     if isc(a):
         return -Fraction(a)
+    if isinstance(a, Lin):
+        return _lin_scale(a, -1)
     return fz.neg(a)
 
 
 def psub(a, b):
     if isc(b):
         return padd(a, -Fraction(b))
+    if isinstance(b, Lin) and (isinstance(a, Lin) or isc(a)):
+        return padd(a, _lin_scale(b, -1))
     if isc(a) and a == 0:
-        return fz.neg(b)
+        return fz.neg(zr(b))
     return fz.sub(zr(a), zr(b))
 
 
@@ -76,17 +146,27 @@ def pmul(a, b):
             return Fraction(0)
         if b == 1:
             return a
+        if isinstance(a, Lin):
+            return _lin_scale(a, b)
         if b == -1:
             return fz.neg(a)
         return fz.mul(zr(b), a)
-    return fz.mul(a, b)
+    za, zb = zr(a), zr(b)
+    # commutative canonical order (ids are stable while the terms are alive)
+    if za.get_id() > zb.get_id():
+        za, zb = zb, za
+    return fz.mul(za, zb)
 
 
 def peq(a, b):
-    """Structural identity of two polynomial parts (hash-consed ASTs)."""
+    """Structural identity of two polynomial parts."""
     if isc(a) and isc(b):
         return Fraction(a) == Fraction(b)
     if isc(a) or isc(b):
+        return False
+    if isinstance(a, Lin) and isinstance(b, Lin):
+        return a.t == b.t and a.c == b.c
+    if isinstance(a, Lin) or isinstance(b, Lin):
         return False
     return a.eq(b)
 
@@ -177,25 +257,25 @@ def pite(c, a, b):
 def p_is0(x):
     if isc(x):
         return x == 0
-    return fz.eq(x, fz.ZERO)
+    return fz.eq(zr(x), fz.ZERO)
 
 
 def p_lt0(x):
     if isc(x):
         return x < 0
-    return fz.lt(x, fz.ZERO)
+    return fz.lt(zr(x), fz.ZERO)
 
 
 def p_gt0(x):
     if isc(x):
         return x > 0
-    return fz.gt(x, fz.ZERO)
+    return fz.gt(zr(x), fz.ZERO)
 
 
 def p_ge0(x):
     if isc(x):
         return x >= 0
-    return fz.ge(x, fz.ZERO)
+    return fz.ge(zr(x), fz.ZERO)
 
 
 def _isqrt_frac(fr):
@@ -429,6 +509,17 @@ class Q:
             return self.n if self.d > 0 else pneg(self.n)
         return pmul(self.n, self.d)
 
+    def _qpos(self):
+        """q = n/d > 0, by sign split"""
+        if isc(self.d):
+            return p_gt0(self.n) if self.d > 0 else p_lt0(self.n)
+        return bor(band(p_gt0(self.n), p_gt0(self.d)), band(p_lt0(self.n), p_lt0(self.d)))
+
+    def _qneg(self):
+        if isc(self.d):
+            return p_lt0(self.n) if self.d > 0 else p_gt0(self.n)
+        return bor(band(p_lt0(self.n), p_gt0(self.d)), band(p_gt0(self.n), p_lt0(self.d)))
+
     def _sgn(self):
         """sign carrier valid both for finite and infinite values"""
         return pite(self.inf, self.sg, self._qsign())
@@ -537,8 +628,11 @@ class Q:
         except Unsupported:
             return NotImplemented
         a, b = self, o
-        n = pmul(a.n, b.d)
-        d = pmul(a.d, b.n)
+        if peq(a.d, b.d):
+            n, d = a.n, b.n       # (x/s) / (y/s) = x / y   (s != 0 on finite values)
+        else:
+            n = pmul(a.n, b.d)
+            d = pmul(a.d, b.n)
         # radicals: sqrt(ra) / sqrt(rb) = sqrt(ra / rb)
         if b.rn is None:
             rn, rd = a.rn, a.rd
@@ -591,7 +685,7 @@ class Q:
                 return Q(r, 1, None, None, a.nan, band(a.inf, p_gt0(a.sg)), 1)
             if fr < 0:
                 return Q(Fraction(0), 1, None, None, bor(a.nan, a.fin, band(a.inf, p_lt0(a.sg))), False, 1)
-        neg = band(a.fin, p_lt0(a._qsign()))
+        neg = band(a.fin, a._qneg())
         nan = bor(a.nan, neg, band(a.inf, p_lt0(a.sg)))
         inf = band(a.inf, p_gt0(a.sg))
         return Q(Fraction(1), Fraction(1), a.n, a.d, nan, inf, 1)
@@ -601,7 +695,7 @@ class Q:
         if a.rn is None:
             if isc(a.n) and isc(a.d):
                 return Q(abs(Fraction(a.n)), abs(Fraction(a.d)), None, None, a.nan, a.inf, 1)
-            nonneg = static(bor(a.nan, a.inf, p_ge0(a._qsign())))
+            nonneg = static(bor(a.nan, a.inf, bnot(a._qneg())))
             if isb(nonneg) and nonneg:
                 return Q(a.n, a.d, None, None, a.nan, a.inf, 1)
             # |q| = sqrt(q^2): stays in normal form (no ite)
@@ -635,14 +729,15 @@ class Q:
     # ---- comparisons (numpy semantics: anything with nan is False) ---------
     def _core_eq(self, o):
         a, b = self, o
+        if peq(a.n, b.n) and peq(a.d, b.d) and a._same_rad(b):
+            return True
         if a.rn is None and b.rn is None:
             if peq(a.d, b.d):
                 return p_is0(psub(a.n, b.n))
             return p_is0(psub(pmul(a.n, b.d), pmul(b.n, a.d)))
         # radicals: equal iff both zero, or same sign and equal squares
-        sa, sb = a._qsign(), b._qsign()
         za, zb = a._finzero(), b._finzero()
-        same_sign = bor(band(p_gt0(sa), p_gt0(sb)), band(p_lt0(sa), p_lt0(sb)))
+        same_sign = bor(band(a._qpos(), b._qpos()), band(a._qneg(), b._qneg()))
         return bor(band(za, zb), band(bnot(za), bnot(zb), same_sign, a._sq_cmp(b, "eq")))
 
     def _sq_parts(self):
@@ -676,21 +771,24 @@ class Q:
                 if isc(a.d):
                     diff = psub(a.n, b.n)
                     return p_lt0(diff) if a.d > 0 else p_gt0(diff)
-                return p_lt0(pmul(psub(a.n, b.n), a.d))
+                diff = psub(a.n, b.n)
+                return bor(band(p_lt0(diff), p_gt0(a.d)), band(p_gt0(diff), p_lt0(a.d)))
             if isc(a.d) and isc(b.d):
                 l = pmul(a.n, Fraction(1) / a.d)
                 r = pmul(b.n, Fraction(1) / b.d)
                 return p_lt0(psub(l, r))
-            # n_a/d_a < n_b/d_b  <=>  n_a d_a d_b^2 < n_b d_b d_a^2
-            l = pmul(pmul(a.n, a.d), pmul(b.d, b.d))
-            r = pmul(pmul(b.n, b.d), pmul(a.d, a.d))
-            return p_lt0(psub(l, r))
-        sa, sb = a._qsign(), b._qsign()
+            # n_a/d_a < n_b/d_b  <=>  N / D < 0  with N = n_a d_b - n_b d_a, D = d_a d_b: split on signs
+            N = psub(pmul(a.n, b.d), pmul(b.n, a.d))
+            dap, dan = p_gt0(a.d), p_lt0(a.d)
+            dbp, dbn = p_gt0(b.d), p_lt0(b.d)
+            Dpos = bor(band(dap, dbp), band(dan, dbn))
+            Dneg = bor(band(dap, dbn), band(dan, dbp))
+            return bor(band(p_lt0(N), Dpos), band(p_gt0(N), Dneg))
         za, zb = a._finzero(), b._finzero()
-        nega = band(bnot(za), p_lt0(sa))
-        negb = band(bnot(zb), p_lt0(sb))
-        posa = band(bnot(za), p_gt0(sa))
-        posb = band(bnot(zb), p_gt0(sb))
+        nega = band(bnot(za), a._qneg())
+        negb = band(bnot(zb), b._qneg())
+        posa = band(bnot(za), a._qpos())
+        posb = band(bnot(zb), b._qpos())
         return bor(
             band(nega, bnot(negb)),
             band(za, posb),
@@ -823,7 +921,7 @@ class Q:
             return bool(x) if isb(x) else ev(x)
 
         def fp(x):
-            return Fraction(x) if isc(x) else ev(x)
+            return Fraction(x) if isc(x) else ev(zr(x))
 
         if fb(self.nan):
             return float("nan")
@@ -853,6 +951,8 @@ Q.NAN = Q(Fraction(0), nan=True)
 
 def eqv(a, b):
     """Extended-real equivalence a == b (NaN == NaN), as a flag (bool | z3 BoolRef)."""
+    if isinstance(a, SymBool) or isinstance(b, SymBool) or (isb(a) and isb(b)):
+        return biff(sb_expr(a), sb_expr(b))
     a, b = Q.lift(a), Q.lift(b)
     both_fin = band(a.fin, b.fin)
     core = a._core_eq(b)
@@ -863,3 +963,22 @@ def eqv(a, b):
         biff(a.nan, b.nan),
         bimp(bnot(a.nan), band(biff(a.inf, b.inf), bimp(a.inf, same_inf), bimp(both_fin, core))),
     )
+
+
+def eqv_strong(a, b):
+    """A *sufficient* condition for eqv(a, b) made of component-wise equalities (numerators, denominators,
+    radicands, flags).  Linear whenever the parts are linear, so z3 decides it in LRA; None if not applicable."""
+    if isinstance(a, SymBool) or isinstance(b, SymBool) or (isb(a) and isb(b)):
+        return None
+    a, b = Q.lift(a), Q.lift(b)
+    if (a.rn is None) != (b.rn is None):
+        return None
+    parts = [biff(a.nan, b.nan), biff(a.inf, b.inf)]
+    both_def = band(bnot(a.nan), bnot(a.inf))
+    comp = [p_is0(psub(a.n, b.n)), p_is0(psub(a.d, b.d))]
+    if a.rn is not None:
+        comp += [p_is0(psub(a.rn, b.rn)), p_is0(psub(a.rd, b.rd))]
+    parts.append(bimp(both_def, band(*comp)))
+    if not (isb(a.inf) and not a.inf and isb(b.inf) and not b.inf):
+        parts.append(bimp(a.inf, p_gt0(pmul(a.sg, b.sg))))
+    return band(*parts)
